@@ -70,6 +70,11 @@ fn unitv<R: Real>(a: &[R]) -> Vec<R> {
     let n = norm_ref(a);
     a.iter().map(|x| x.div(n)).collect()
 }
+/// distance between two quaternions as rotations: q and -q are the same rotation
+fn qdist<R: Real>(got: &[f64], want: &[R]) -> f64 {
+    let neg: Vec<R> = want.iter().map(|x| x.neg()).collect();
+    dist(got, want).min(dist(got, &neg))
+}
 /// |got - want| as f64 (vector 2-norm)
 fn dist<R: Real>(got: &[f64], want: &[R]) -> f64 {
     let d: Vec<R> = got.iter().zip(want).map(|(g, w)| R::of(*g).sub(*w)).collect();
@@ -216,7 +221,7 @@ fn judge_quat_r<R: Real>(cx: &Cx, simd_sin: bool, w: &[u64], o: &QuatOut, t: &mu
         for e in &ends {
             let (r, tol) = slerp_ref(&a, e, s, th4, dth, u);
             let tol = tol + simd_term;
-            let err = dist(&o.slerp, &r);
+            let err = qdist(&o.slerp, &r);
             let ratio = err / tol;
             if ratio < best {
                 best = ratio;
@@ -249,7 +254,7 @@ fn judge_quat_r<R: Real>(cx: &Cx, simd_sin: bool, w: &[u64], o: &QuatOut, t: &mu
             let r: Vec<R> = c.iter().map(|x| x.div(nc)).collect();
             // chord: 3 ops per lane on |1-s||a_i| + |s||b_i|; normalisation: 5 ops relative
             let tol = u * (k2(3.0) * ((1.0 - sv).abs() + sv.abs()) / nc.f() + k2(5.0));
-            let err = dist(*got, &r);
+            let err = qdist(*got, &r);
             if err / tol < best {
                 best = err / tol;
                 msg = format!("s={:?}: got {:?} expected normalised chord {:?} |err| {:e} > tol {:e}", sv, got, fv(&r), err, tol);
@@ -259,7 +264,8 @@ fn judge_quat_r<R: Real>(cx: &Cx, simd_sin: bool, w: &[u64], o: &QuatOut, t: &mu
             return Err(cx.fail("Quat::lerp", format!("{}; {}", msg, ctx())));
         }
         t.ratio("lerp", best);
-        lerp_angle[idx] = angle_ref(&a, &rv::<R>(&got[..]));
+        let la = angle_ref(&a, &rv::<R>(&got[..]));
+        lerp_angle[idx] = la.min(PI - la); // as rotations: q and -q coincide
     }
     // monotone in s within [0, 1]
     if (0.0..=1.0).contains(&s) && (0.0..=1.0).contains(&s2) && !flip_free {
@@ -297,7 +303,7 @@ fn judge_quat_r<R: Real>(cx: &Cx, simd_sin: bool, w: &[u64], o: &QuatOut, t: &mu
                 // the interpolation parameter is max_angle / (computed angle): relative error dth/theta, absolute on the angle <= dth
                 let extra = if maxa.abs() >= th_rot + 2.0 * dth { 0.0 } else { dth * (maxa.abs() / (2.0 * (th4 - dth).max(1e-300))).min(1.0) };
                 let tol = tol + simd_term + extra;
-                let err = dist(&o.rot, &r);
+                let err = qdist(&o.rot, &r);
                 if err / tol < best {
                     best = err / tol;
                     msg = format!("got {:?} expected {:?} (rotation by {:e} of {:e}) |err| {:e} > tol {:e}", o.rot, fv(&r), phi, th_rot, err, tol);
